@@ -9,6 +9,7 @@ import (
 	"path/filepath"
 	"runtime/debug"
 	"sort"
+	"strconv"
 	"strings"
 	"sync"
 	"time"
@@ -69,7 +70,8 @@ func loadProg(repo string) (*Prog, error) {
 		}
 		k := fnKey(fn)
 		if strings.HasPrefix(k, modulePath) {
-			if old, ok := p.fnByKey[k]; !ok || len(old.Blocks) == 0 {
+			// a method and its synthetic pointer-receiver wrapper share a key: keep the method
+			if old, ok := p.fnByKey[k]; !ok || len(old.Blocks) == 0 || (old.Synthetic != "" && fn.Synthetic == "" && len(fn.Blocks) > 0) {
 				p.fnByKey[k] = fn
 			}
 		}
@@ -158,6 +160,14 @@ func (p *Prog) VerifyFn(fn *ssa.Function, opts VerifyOpts) (res *FnResult) {
 		sweep: opts.Sweep, noSafety: opts.NoSafety, fnsSeen: map[string]bool{}, contractsUsed: map[string]bool{}, specsUsed: map[string]bool{}, ghost: map[string]Value{}}
 	if x.maxDepth == 0 {
 		x.maxDepth = 6
+	}
+	if con != nil {
+		// "opt inline=N": callees without contract are inlined to depth N only; deeper ones
+		// (all of them for N=0) are abstracted: results unconstrained, reachable heap forgotten
+		if d, err := strconv.Atoi(con.Opts["inline"]); err == nil && con.Opts["inline"] != "" {
+			x.maxDepth = d
+			x.inlineSet = true
+		}
 	}
 	res = &FnResult{Key: shortKey(key), Mode: mode, c: c}
 	if con != nil {
@@ -365,11 +375,18 @@ func (x *Exec) frameObligations(fr *frame, con *FnContract, out *State, post *En
 			continue
 		}
 		conds := []Term{mk(SBool, "<=", r, entry.alloc), mk(SBool, ">", r, intLit(0))}
+		listedWhole := false
 		for _, l := range locs {
 			base, _ := l.pathKey()
 			if strings.HasPrefix(k, base) {
+				if l.everyRef {
+					listedWhole = true // all(T): the whole array is in the frame
+				}
 				conds = append(conds, not(eq(r, l.Ref)))
 			}
+		}
+		if listedWhole {
+			continue
 		}
 		goal := implies(and(conds...), eq(sel(cur, r), sel(was, r)))
 		x.oblige(fr, out, "frame", k, fr.fn.Pos(), goal, "property", con.Opts["frame-tag"])
